@@ -235,6 +235,28 @@ func (c *comparator) parseBlock(p *Program, stmts []ast.Stmt, env map[string]ast
 				bindAssign(as, local)
 			}
 			cond, ok := st.Cond.(*ast.BinaryExpr)
+			// three-way key: if c := cmp.Compare(A, B); c != 0 { return c < 0 }
+			if ok && cond.Op == token.NEQ && len(st.Body.List) == 1 {
+				if ret, isRet := st.Body.List[0].(*ast.ReturnStmt); isRet && len(ret.Results) == 1 {
+					cx, isCall := subst(cond.X, local).(*ast.CallExpr)
+					rb, isBin := subst(ret.Results[0], local).(*ast.BinaryExpr)
+					if isCall && isBin && len(cx.Args) == 2 && isZeroLit(cond.Y) && isZeroLit(rb.Y) && (rb.Op == token.LSS || rb.Op == token.GTR) && isThreeWayCompare(p, cx.Fun) && exprStr(p.Fset, rb.X) == exprStr(p.Fset, cx) {
+						a, b := cx.Args[0], cx.Args[1]
+						op := rb.Op // result < 0  ⇔  a < b
+						if mentionsIdent(a, c.rname) && !mentionsIdent(a, c.lname) {
+							// Compare(key(r), key(l)): descending in the key
+							a, b = b, a
+							if op == token.LSS {
+								op = token.GTR
+							} else {
+								op = token.LSS
+							}
+						}
+						c.steps = append(c.steps, cmpStep{guardL: a, guardR: b, retL: a, retR: b, op: op, pos: st.Pos()})
+						continue
+					}
+				}
+			}
 			if ok && cond.Op == token.NEQ && len(st.Body.List) == 1 {
 				if ret, ok := st.Body.List[0].(*ast.ReturnStmt); ok && len(ret.Results) == 1 {
 					step := cmpStep{guardL: subst(cond.X, local), guardR: subst(cond.Y, local), pos: st.Pos()}
@@ -284,6 +306,9 @@ func (c *comparator) parseBlock(p *Program, stmts []ast.Stmt, env map[string]ast
 			// for _, key := range TABLE { if ka, kb := key(a), key(b); ka != kb { return ka < kb } }
 			// with TABLE a package-level list of key functions: one step per entry
 			entries := keyTableEntries(c.pkg, st.X)
+			if entries == nil {
+				entries = keyParamEntries(c, st.X)
+			}
 			kv, isIdent := st.Value.(*ast.Ident)
 			if entries == nil || !isIdent {
 				c.errorf(st.Pos(), "unsupported statement %T in comparator", s)
@@ -390,9 +415,19 @@ func subst(e ast.Expr, env map[string]ast.Expr) ast.Expr {
 		fun := subst(x.Fun, env)
 		// a key function bound to the loop variable of a key table: its body, with the
 		// parameter replaced by the argument
-		if fl, ok := fun.(*ast.FuncLit); ok && len(args) == 1 && fl.Type.Params != nil && len(fl.Type.Params.List) == 1 && len(fl.Type.Params.List[0].Names) == 1 && len(fl.Body.List) == 1 {
-			if ret, ok := fl.Body.List[0].(*ast.ReturnStmt); ok && len(ret.Results) == 1 {
-				return subst(ret.Results[0], map[string]ast.Expr{fl.Type.Params.List[0].Names[0].Name: args[0]})
+		if fl, ok := fun.(*ast.FuncLit); ok && fl.Type.Params != nil && len(fl.Body.List) == 1 {
+			var names []string
+			for _, f := range fl.Type.Params.List {
+				for _, n := range f.Names {
+					names = append(names, n.Name)
+				}
+			}
+			if ret, ok := fl.Body.List[0].(*ast.ReturnStmt); ok && len(ret.Results) == 1 && len(names) == len(args) && len(args) > 0 {
+				bind := map[string]ast.Expr{}
+				for i, n := range names {
+					bind[n] = args[i]
+				}
+				return subst(ret.Results[0], bind)
 			}
 		}
 		return &ast.CallExpr{Fun: fun, Args: args}
@@ -780,14 +815,42 @@ func (c *Check) totalityRules(parsed map[*ssa.Function]*comparator) {
 		}
 	}
 	if sortFn == nil {
+		sortFn = p.Func("internal/graph", "Nodes.Sort")
+	}
+	if sortFn == nil {
 		c.undecided("C08-R3", "total:Nodes.Sort", "", "closures of (graph.Nodes).Sort not found")
 		return
 	}
 	var cl []*ssa.Function
+	inCl := map[*ssa.Function]bool{}
 	for f := range parsed {
 		if f.Parent() == sortFn {
 			cl = append(cl, f)
+			inCl[f] = true
 		}
+	}
+	// orders produced by a comparator factory that Sort calls (lessByKeys(k1, k2, …))
+	for _, b := range sortFn.Blocks {
+		for _, ins := range b.Instrs {
+			call, ok := ins.(*ssa.Call)
+			if !ok || call.Call.StaticCallee() == nil || !fnInModule(call.Call.StaticCallee()) {
+				continue
+			}
+			if sig, ok := call.Type().Underlying().(*types.Signature); !ok || sig.Params().Len() != 2 || sig.Results().Len() != 1 {
+				continue
+			}
+			fns, _ := p.MG().funcValues(call, map[ssa.Value]bool{})
+			for _, g := range fns {
+				if parsed[g] != nil && !inCl[g] {
+					inCl[g] = true
+					cl = append(cl, g)
+				}
+			}
+		}
+	}
+	if len(cl) == 0 {
+		c.undecided("C08-R3", "total:Nodes.Sort", "", "closures of (graph.Nodes).Sort not found")
+		return
 	}
 	sortFns(cl)
 	for _, f := range cl {
@@ -1038,6 +1101,115 @@ func keyTableEntries(pkg *packages.Package, x ast.Expr) []ast.Expr {
 		default:
 			return nil
 		}
+	}
+	return out
+}
+
+func isZeroLit(e ast.Expr) bool {
+	b, ok := e.(*ast.BasicLit)
+	return ok && b.Kind == token.INT && b.Value == "0"
+}
+
+// isThreeWayCompare: cmp.Compare, strings.Compare, bytes.Compare, or a method Compare.
+func isThreeWayCompare(p *Program, fun ast.Expr) bool {
+	switch exprStr(p.Fset, fun) {
+	case "cmp.Compare", "strings.Compare", "bytes.Compare":
+		return true
+	}
+	return false
+}
+
+// keyParamEntries: x names a (variadic) parameter of the function that encloses the
+// comparator literal (a comparator factory: func lessByKeys(keys ...keyFn) func(l, r) bool);
+// the key functions handed to that parameter at every call of the factory in its package.
+func keyParamEntries(c *comparator, x ast.Expr) []ast.Expr {
+	id, ok := x.(*ast.Ident)
+	par := c.fn.Parent()
+	if !ok || par == nil || c.pkg == nil {
+		return nil
+	}
+	fd, ok := par.Syntax().(*ast.FuncDecl)
+	if !ok || fd.Recv != nil {
+		return nil
+	}
+	pidx, n := -1, 0
+	for _, f := range fd.Type.Params.List {
+		for _, nm := range f.Names {
+			if nm.Name == id.Name {
+				pidx = n
+			}
+			n++
+		}
+	}
+	if pidx < 0 {
+		return nil
+	}
+	funcs := map[string]*ast.FuncDecl{}
+	for _, file := range c.pkg.Syntax {
+		for _, d := range file.Decls {
+			if dd, ok := d.(*ast.FuncDecl); ok && dd.Recv == nil {
+				funcs[dd.Name.Name] = dd
+			}
+		}
+	}
+	var out []ast.Expr
+	seen := map[string]bool{}
+	bad := false
+	for _, file := range c.pkg.Syntax {
+		ast.Inspect(file, func(nd ast.Node) bool {
+			call, ok := nd.(*ast.CallExpr)
+			if !ok {
+				return true
+			}
+			fid, ok := call.Fun.(*ast.Ident)
+			if !ok || fid.Name != fd.Name.Name {
+				return true
+			}
+			for i, a := range call.Args {
+				if i < pidx {
+					continue
+				}
+				switch v := a.(type) {
+				case *ast.FuncLit:
+					out = append(out, v)
+				case *ast.Ident:
+					if seen[v.Name] {
+						continue
+					}
+					if kd := funcs[v.Name]; kd != nil && kd.Body != nil {
+						seen[v.Name] = true
+						out = append(out, &ast.FuncLit{Type: kd.Type, Body: kd.Body})
+						continue
+					}
+					// a key function defined as a local literal: name := func(l, r T) int { … }
+					var lit *ast.FuncLit
+					ast.Inspect(file, func(n2 ast.Node) bool {
+						if as, ok := n2.(*ast.AssignStmt); ok && len(as.Lhs) == len(as.Rhs) {
+							for k, l := range as.Lhs {
+								if li, ok := l.(*ast.Ident); ok && li.Name == v.Name {
+									if fl, ok := as.Rhs[k].(*ast.FuncLit); ok {
+										lit = fl
+									}
+								}
+							}
+						}
+						return true
+					})
+					if lit == nil {
+						bad = true
+						continue
+					}
+					seen[v.Name] = true
+					out = append(out, lit)
+				default:
+					bad = true
+				}
+			}
+			return true
+		})
+	}
+	if bad || len(out) == 0 {
+		return nil
 	}
 	return out
 }
